@@ -333,7 +333,8 @@ func c12caseAt(id string, a c12attr, sh c12shape, origin, wd string, resolve boo
 			return core.Outcome{Class: "na", Trivial: true}
 		}
 		files[wd+"/compose.yaml"] = "include:\n  - ./sub/inc.yaml\nservices:\n  other: {image: o}\n"
-		files[wd+"/sub/inc.yaml"] = "services:\n  s:\n    extends: {file: ../../lib/base.yaml, service: s}\n"
+		relLib, _ := filepath.Rel(wd+"/sub", "lib")
+		files[wd+"/sub/inc.yaml"] = "services:\n  s:\n    extends: {file: \"" + relLib + "/base.yaml\", service: s}\n"
 		files["lib/base.yaml"] = svcDoc
 		originDir = "lib"
 	case "extends-prefix-sibling":
